@@ -237,6 +237,11 @@ fn bound_check(bytes: &[u8], what: &str, st: &mut Stats) -> PResult {
     Ok(())
 }
 
+/// Step bound on one input (used by the fuzz target).
+pub fn bound_check_pub(bytes: &[u8]) -> PResult {
+    bound_check(bytes, "fuzz input", &mut Stats::default())
+}
+
 fn c18_case(data: &[u8], st: &mut Stats) -> PResult {
     let mut src = Src::new(data);
     match src.weighted(&[5, 3]) {
